@@ -6,12 +6,30 @@ BINARIES = {
     # name: sources (first = harness TU), flavour, harness name (for replay lookup)
     "wmm": {"sources": ["harness/queue_wmm.cpp", "engine/rc_driver.cpp"], "flavour": "asan", "libs": RC_LIBS,
             "harness": "wmm", "probe_params": {}},
+    "pattern": {"sources": ["harness/pattern.cpp", "engine/rc_driver.cpp"], "flavour": "asan", "libs": RC_LIBS, "harness": "pattern"},
+    "named": {"sources": ["harness/named.cpp", "engine/rc_driver.cpp"], "flavour": "asan", "libs": RC_LIBS, "harness": "named"},
+    "rot": {"sources": ["harness/rotating.cpp", "engine/rc_driver.cpp"], "flavour": "asan", "libs": RC_LIBS, "harness": "rot"},
+    "alloc": {"sources": ["harness/alloc_catalog.cpp", "harness/alloc_catalog_2.cpp", "harness/alloc_catalog_3.cpp",
+                          "harness/alloc_interpose.cpp", "engine/rc_driver.cpp"], "flavour": "o2", "libs": RC_LIBS,
+              "harness": "alloc"},
+    "crash_child": {"sources": ["harness/crash_child.cpp"], "flavour": "plain", "libs": [], "harness": "-"},
+    "crashkid": {"sources": ["harness/crashkid.cpp", "engine/rc_driver.cpp"], "flavour": "plain", "libs": RC_LIBS,
+                 "harness": "crashkid"},
     "tsfmt": {"sources": ["harness/tsfmt.cpp", "engine/rc_driver.cpp"], "flavour": "asan", "libs": RC_LIBS,
               "harness": "tsfmt"},
 }
 
 # known-finding class -> binary that implements its probe
 CLASS_BIN = {
+    "pattern.runtime_metadata_contains_separator": "pattern",
+    "pattern.runtime_metadata_with_named_args": "pattern",
+    "named.escaped_close_after_placeholder": "named",
+    "named.value_contains_separator": "named",
+    "named.newline_in_value": "named",
+    "rot.same_second_restart_datetime": "rot",
+    "rot.drift_after_late_trigger": "rot",
+    "rot.no_extension_no_clean_no_recover": "rot",
+    "alloc.map_pair_temporary_copy": "alloc",
     "wmm.unpublished_reader_remainder": "wmm",
     "wmm.nonpow2_max_unreachable": "wmm",
     "tsfmt.composite_time_conversion": "tsfmt",
@@ -30,9 +48,15 @@ HOOKS = {
 ENGINES = {
     "wmm": {"path": "engine/wmm.h", "serves": ["C01", "C02", "C09"],
             "kind": "std::atomic retarget shim with per-location store history, vector clocks, coherence floors, choice-driven stale loads, coroutine scheduler, payload happens-before race detector"},
-    "rcdrv": {"path": "engine/rc_driver.cpp", "serves": ["C13"],
+    "rcdrv": {"path": "engine/rc_driver.cpp", "serves": ["C01", "C02", "C07", "C11", "C12", "C13", "C14", "C15", "C19"],
               "kind": "rapidcheck generator+shrinker over a vector<uint32_t> choice stream; in-process or fork-per-case execution; replay files"},
-    "check": {"path": "check", "serves": ["C13"],
+    "pattern": {"path": "harness/pattern.cpp", "serves": ["C12"], "kind": "direct + end-to-end PatternFormatter harness with independent reference substitution"},
+    "named": {"path": "harness/named.cpp", "serves": ["C19"], "kind": "named-args / JSON sink harness through a manual backend"},
+    "rot": {"path": "harness/rotating.cpp", "serves": ["C14", "C15"], "kind": "RotatingFileSink driver with file-system reference model and two-tier schedule oracle"},
+    "alloc": {"path": "harness/alloc_catalog.cpp", "serves": ["C11"], "kind": "allocation-interposed statement catalog (-O2, no sanitizers)"},
+    "crashkid": {"path": "harness/crashkid.cpp", "serves": ["C07"], "kind": "fork/exec fault injection: generated child programs, all boundaries x termination kinds"},
+    "tsfmt": {"path": "harness/tsfmt.cpp", "serves": ["C13"], "kind": "TimestampFormatter vs libc strftime"},
+    "check": {"path": "check", "serves": ["C01", "C02", "C07", "C11", "C12", "C13", "C14", "C15", "C19"],
               "kind": "python3 driver: builds harnesses from /repo's working tree, seeds, tiers, replays, known findings, evidence"},
 }
 
@@ -84,6 +108,126 @@ PROPERTIES = {
             {"bin": "wmm", "params": {"prop": "C02"},
              "quick": {"cases": 1500, "procs": 8, "maxlen": 700},
              "thorough": {"cases": 25000, "procs": 16, "maxlen": 1400}},
+        ],
+    },
+    "C07": {
+        "level": "fault_enumeration",
+        "evaluations_counter": "children",
+        "technique": "fault injection: generated child programs, every statement boundary x termination kind enumerated per program, judged from outside (wait status + file)",
+        "level_text": ("Fault enumeration: for every generated child program (threads, statement counts/sizes, clock, busy/idle "
+                       "backend, handler options) the termination event (return, exit from main/worker, Backend::stop, or one of the "
+                       "six handled signals delivered by raise/pthread_kill/kill/real fault) is placed at EVERY statement boundary "
+                       "0..n of the acting thread; the parent checks wait status, file content, notices and flush state. Start/stop "
+                       "cycles run in a separate child. Programs are sampled, boundaries per program are exhaustive."),
+        "level_note": ("Real OS scheduling inside each child (the oracle is schedule independent); signals inside a log call and "
+                       "exits while other threads are still logging are outside the property; x86 ud2 for the SIGILL fault form."),
+        "rule": ("evaluation = one exec'd child (program spec x termination kind x boundary); a case = one generated program with "
+                 "2-3 (quick) or all 10 (thorough) termination kinds x all boundaries of the acting thread, or one start/stop-cycle "
+                 "program; non-trivial case = at the termination event of at least one of its children a completed statement was "
+                 "still unwritten (child reports its sink count through report.txt) or a cycle had statements pending at Stop; "
+                 "distinct = FNV hash of the rendered program spec + kinds"),
+        "assumptions": ["children run without sanitizers, RLIMIT_CORE=0, scratch dirs in /dev/shm"],
+        "jobs": [
+            {"bin": "crashkid", "needs": ["crash_child"], "params": {"child": "{bin:crash_child}", "mode": "mix"},
+             "quick": {"cases": 300, "procs": 1, "timeout": 1500},
+             "thorough": {"cases": 3000, "procs": 1, "params": {"all_kinds": "1"}, "timeout": 7200}, "confirm": 2},
+            {"bin": "crashkid", "needs": ["crash_child"], "params": {"child": "{bin:crash_child}", "mode": "cycles", "jobs": "4"},
+             "quick": {"cases": 60, "procs": 1, "timeout": 1500},
+             "thorough": {"cases": 1500, "procs": 1, "timeout": 7200}, "confirm": 2},
+        ],
+    },
+    "C11": {
+        "technique": "property-based testing with link-time allocation interposers (operator new / malloc family / mmap counted per armed thread) and a formatter-thread recorder",
+        "level_text": ("Exploration: tens of thousands of generated statements per run over a catalog of 58 argument shapes x 35 real "
+                       "macro call sites (all macro families), generated values and lengths, main thread and fresh worker threads "
+                       "(after preallocate() or after a first call); the armed allocation counters on the calling thread must read "
+                       "0 and deferred formatters must run on the backend thread id. Held on everything generated."),
+        "level_note": ("Built -O2 without sanitizers; kernel-side allocation (page faults) is not an allocation call; excluded by the "
+                       "property: paths, direct-format types (checked the other way round), deferred types whose copy allocates, "
+                       "13+ C strings (used as a negative control)."),
+        "rule": ("case = thread mode (main / worker after preallocate / worker after first call) + 1-8 statements, each = (shape from "
+                 "the 58-shape catalog, one of 35 macros, generated values/lengths that fit the queue); armed region = exactly the "
+                 "macro; non-trivial = >= 1 statement with a variable-length or container argument; distinct = FNV hash of the "
+                 "rendered case"),
+        "assumptions": ["interposers see every user-space allocation entry point of glibc/libstdc++", "default FrontendOptions"],
+        "jobs": [
+            {"bin": "alloc",
+             "quick": {"cases": 30000, "procs": 8, "maxlen": 400},
+             "thorough": {"cases": 300000, "procs": 16, "maxlen": 400}},
+        ],
+    },
+    "C12": {
+        "technique": "property-based testing against an independent reference substitution (direct PatternFormatter level and end-to-end through a manual backend)",
+        "level_text": ("Exploration: tens of thousands of generated (pattern, attribute values, metadata, message) cases per run; "
+                       "patterns use any subset/order of the 16 attributes with fill/align/width/precision specs and literal text; "
+                       "end-to-end cases cover every newline arrangement, add_metadata_to_multi_line_logs on/off, sink override "
+                       "patterns and LOG_RUNTIME_METADATA. Held on everything generated."),
+        "level_note": ("The reference re-implements fmt pad/truncate for ASCII only (specs get ASCII values); %(time) uses simple "
+                       "patterns (time caching is C13); single-threaded end-to-end with a user clock."),
+        "rule": ("case = direct (pattern tokens, values, runtime MacroMetadata, named-arg pairs) or end-to-end (logger options, 1-n "
+                 "statements with newline layouts / runtime metadata) or an invalid pattern that must throw; non-trivial = >= 3 "
+                 "attributes in non-enum order, or a spec, or a message of >= 2 lines; distinct = FNV hash of the rendered case"),
+        "assumptions": ["each attribute at most once per pattern (documented)", "braces in patterns only escaped"],
+        "jobs": [
+            {"bin": "pattern", "params": {"part": "both"},
+             "quick": {"cases": 30000, "procs": 8, "maxlen": 400},
+             "thorough": {"cases": 100000, "procs": 16, "maxlen": 600}},
+        ],
+    },
+    "C14": {
+        "technique": "property-based testing of RotatingFileSink driven directly with generated sizes/timestamps/restarts against a file-system reference model",
+        "level_text": ("Exploration: thousands of generated (config, write/flush/restart history) cases per run in scratch "
+                       "directories; after every rotation, start and stop the directory is compared with an independent model "
+                       "(wholeness, size bound, name order = age order, loss only by deliberate deletion, backup count, append "
+                       "restarts continue the sequence). Held on everything generated."),
+        "level_note": ("Start instants and timestamps are injected (deterministic); tmpfs scratch; files named <stem>.<x><ext> are "
+                       "treated as the sink's own family as the code documents (observations about siblings are in DESIGN.md); "
+                       "FilenameAppendOption not generated (wall clock)."),
+        "rule": ("case = (limit 512-4096, backup count, overwrite, naming scheme, open mode, remove-old, zone, file name form, "
+                 "unrelated files) + 1-80 ops Write(size, dt) / Flush / Restart(dt); non-trivial = >= 2 rotations AND (backup limit "
+                 "reached OR a restart OR a date collision); distinct = FNV hash of the rendered case"),
+        "assumptions": ["unrelated file = different extension or different stem prefix (as in the repo's own test)"],
+        "jobs": [
+            {"bin": "rot", "params": {"prop": "C14", "domain_exclude": "rot.remove_old_deletes_unrelated_same_prefix,rot.recovers_sibling_rotated_file"},
+             "quick": {"cases": 3500, "procs": 8, "maxlen": 420},
+             "thorough": {"cases": 20000, "procs": 16, "maxlen": 420}},
+        ],
+    },
+    "C15": {
+        "technique": "property-based testing of RotatingFileSink time rotation against a two-tier schedule oracle (configured civil schedule / drift-tolerant)",
+        "level_text": ("Exploration: thousands of generated (schedule, zone, start instant, timestamp history) cases per run, dense "
+                       "and with gaps of many periods, combined with size rotation and backup limits, all naming schemes; checked "
+                       "against the configured schedule (tier A) and the drift-tolerant schedule (tier B). Held on everything "
+                       "generated (tier B while finding F8 is open)."),
+        "level_note": ("While F8 (schedule drift) is a known finding only tier B is asserted and tier-A disagreements are counted; "
+                       "local-time fall-back hours with date-bearing names are stepped over; 12 curated zones, 2001-2030."),
+        "rule": ("case = (daily HH:MM | hourly | minutely with interval, GMT/local zone, start instant near/at/after a boundary, "
+                 "optional size limit and backup limit, naming scheme) + Write(dt) history; non-trivial = >= 1 time rotation AND (a "
+                 "gap > one period OR a statement exactly on a point OR a size rotation inside the same period); distinct = FNV "
+                 "hash of the rendered case"),
+        "assumptions": ["libc mktime/timegm/strftime are the calendar reference"],
+        "jobs": [
+            {"bin": "rot", "params": {"prop": "C15", "domain_exclude": "rot.remove_old_deletes_unrelated_same_prefix,rot.recovers_sibling_rotated_file"},
+             "quick": {"cases": 3500, "procs": 8, "maxlen": 420},
+             "thorough": {"cases": 20000, "procs": 16, "maxlen": 420}},
+        ],
+    },
+    "C19": {
+        "technique": "property-based testing end-to-end through a manual backend: positional-twin oracle via call-site fmt, strict JSON parser for the sink file",
+        "level_text": ("Exploration: tens of thousands of generated statement sequences per run (1-20 statements over 1-6 templates in "
+                       "generated first-seen order, 17 argument signatures, escaped braces/specs in every adjacency, cache reuse, "
+                       "metadata rewritten in place); message, ordered key/value pairs and the JsonFileSink line are checked; the 27 "
+                       "LOGJ expansions are compared exhaustively once per process. Held on everything generated."),
+        "level_note": ("Single thread that is also the backend; scalar/string argument types only; JsonConsoleSink shares the code "
+                       "path but is not exercised; three known findings (F4, F5, F17) excluded by construction and probed."),
+        "rule": ("case = 1-20 statements over 1-6 templates (token sequences of literal / {{ / }} / {name} / {name:spec}) with "
+                 "generated values; non-trivial = >= 2 named placeholders AND (an escaped brace OR a spec), OR a cached template "
+                 "reused after a different one; distinct = FNV hash of the rendered case"),
+        "assumptions": ["fmtquill::format at the call site is the formatting reference", "default check_printable_char"],
+        "jobs": [
+            {"bin": "named",
+             "quick": {"cases": 20000, "procs": 8, "maxlen": 600},
+             "thorough": {"cases": 45000, "procs": 16, "maxlen": 600}},
         ],
     },
     "C13": {
